@@ -71,6 +71,9 @@ pub enum Act {
     /// a protocol asks for a dial through its `TransportService`
     ProtoDial { p: u8 },
     Opened { id: usize, a: usize, errors: bool },
+    /// the socket opens but `Transport::negotiate` then fails (the statement quantifies over negotiate failures;
+    /// the TCP transport itself can only fail there if the opened socket has vanished)
+    OpenedNegotiateFails { id: usize, a: usize },
     OpenFail { id: usize },
     Established { id: usize },
     DialFail { id: usize },
@@ -219,9 +222,12 @@ impl MgrModel {
                 }
                 Call::Negotiate { id } => match sys.opened_wait.remove(&id) {
                     Some(a) => {
-                        sys.nego_out.insert(id, a);
+                        let failed = sys.node.script.0.lock().fail_negotiate.contains(&id);
+                        if !failed {
+                            sys.nego_out.insert(id, a);
+                        }
                         if let Some(at) = sys.attempts.get_mut(&id) {
-                            at.last_call = "negotiate";
+                            at.last_call = if failed { "negotiate-failed" } else { "negotiate" };
                         }
                     }
                     None => self.v(sys, "c05/negotiate-unknown-connection", format!("negotiate({id}) for a connection that was not opened")),
@@ -559,6 +565,7 @@ impl Model for MgrModel {
                 }
             }
             v.push(Act::OpenFail { id: *id });
+            v.push(Act::OpenedNegotiateFails { id: *id, a: 0 });
         }
         for id in sys.nego_out.keys() {
             v.push(Act::Established { id: *id });
@@ -668,6 +675,14 @@ impl Model for MgrModel {
                 }
                 sys.opened_wait.insert(*id, address.clone());
                 sys.node.script.emit(TransportEvent::ConnectionOpened { connection_id: ConnectionId::from(*id), address, errors: errs });
+            }
+            Act::OpenedNegotiateFails { id, a } => {
+                let addrs = sys.open_out.remove(id).expect("enabled");
+                let address = addrs[*a].clone();
+                allowed.push((address.clone(), Some(CONNECTION_ESTABLISHED)));
+                sys.opened_wait.insert(*id, address.clone());
+                sys.node.script.0.lock().fail_negotiate.push(*id);
+                sys.node.script.emit(TransportEvent::ConnectionOpened { connection_id: ConnectionId::from(*id), address, errors: vec![] });
             }
             Act::OpenFail { id } => {
                 let addrs = sys.open_out.remove(id).expect("enabled");
